@@ -368,20 +368,22 @@ func legC05Opt(c *Ctx) {
 			c.Add(&Case{Desc: "c05-opt: model execution failed: " + err.Error(), Direct: "model execution failed"})
 		} else {
 			for i, o := range outs {
-				if len(o) < 4 || o[0] != 0 {
+				if len(o) < 6 || o[0] != 0 {
 					c.Hist("side-conditions: model gave no tree")
 					continue
 				}
-				fl := o[len(o)-3:]
-				for j, nm := range []string{"strict-nb fails (a \\B stepped over before the end of the expression)", "strict-bal fails (walk through a balancing capture)", "lite fails (a mandatory reducer changes a re-reduced node)"} {
+				fl := o[len(o)-5:]
+				all := true
+				for j, nm := range []string{"strict-nb fails (a \\B stepped over before the end of the expression)", "strict-bal fails (a balancing capture on the way)", "strict-desc fails (walk up out of an atomic group the walk descended into)", "strict-findlast fails (FindLastExpressionInLoopForAutoAtomic found a loop)", "lite fails (a mandatory reducer changes a re-reduced node)"} {
 					if fl[j] == 0 {
+						all = false
 						c.Hist("side-condition " + nm)
 						if os.Getenv("VERIF_C05_DEBUG") != "" {
 							fmt.Fprintln(os.Stderr, "SIDE", j, flagDesc[i])
 						}
 					}
 				}
-				if fl[0] != 0 && fl[1] != 0 && fl[2] != 0 {
+				if all {
 					c.Hist("side-conditions all hold")
 				}
 			}
